@@ -370,7 +370,7 @@ func (e *Engine) globalPtr(st *State, g *ssa.Global) PtrV {
 		} else {
 			v = e.FromNative(st, reflect.ValueOf(ptr).Elem(), elemT)
 		}
-	} else if e.InterpPkgs[g.Pkg.Pkg.Path()] || strings.HasSuffix(g.Name(), "init$guard") {
+	} else if e.InterpPkgs[g.Pkg.Pkg.Path()] || strings.HasSuffix(g.Name(), "init$guard") || strings.HasPrefix(g.Name(), VerifPrefix) {
 		v = e.zero(elemT)
 	} else {
 		e.fail("global %s of a non-interpreted package is not registered for native import", name)
